@@ -23,7 +23,7 @@ ASSUMPTIONS = [
 ]
 PLAN = {
     "quick": {"shards": 8, "shard_timeout": 400, "case_timeout": 30, "grid_sizes": [2, 3, 4, 5, 7, 10, 11], "nest": 300, "gp": 40, "max_case_timeouts": 3},
-    "thorough": {"shards": 16, "shard_timeout": 3600, "case_timeout": 120, "grid_sizes": [2, 3, 4, 5, 6, 7, 8, 9, 10, 11, 12, 13, 16, 25, 50, 100, 101], "nest": 80000, "gp": 8000, "max_case_timeouts": 10},
+    "thorough": {"shards": 16, "shard_timeout": 3600, "case_timeout": 120, "grid_sizes": [2, 3, 4, 5, 6, 7, 8, 9, 10, 11, 12, 13, 16, 25, 50, 100, 101], "nest": 400000, "gp": 40000, "max_case_timeouts": 10},
 }
 THRESHOLDS = {
     "quick": {"step_applications": 20000, "grid_points": 15000, "leaf_applications": 300, "nested_applications": 300, "initialisations": 100, "gp_generations_counted": 100, "form:iterator": 2000, "form:population": 2000, "form:list": 2000},
